@@ -66,7 +66,7 @@ def let_substitutions(root):
             p = n["p"]
             if p.get("k") == "bind" and "sub" not in p and p.get("mode") == "BindingMode(No, Not)" and isinstance(n.get("i"), dict):
                 init = _t.peel(n["i"])
-                if isinstance(init, dict) and init.get("k") in ("call", "bin", "logic", "un", "field", "lit"):
+                if isinstance(init, dict) and (init.get("k") in ("call", "bin", "logic", "un", "field", "lit") or matches_as_eq(init) is not None):
                     inits[p["n"]] = n["i"]
         elif k == "match":
             for a in n["arms"]:
